@@ -1662,6 +1662,8 @@ class Interp:
         if isinstance(it, SymZip):
             parts = [self.sym_iter(p) for p in it.parts]
             n = parts[0][0]
+            for q in parts[1:]:       # zip stops at the shortest operand
+                n = conc(Min(I(n), I(q[0])))
             return n, (lambda j: tuple(p[1](j) for p in parts))
         raise Unsupported("symbolic iteration over %r" % (it,))
 
